@@ -3,6 +3,7 @@ import StoneVerif.Model.Lex
 import StoneVerif.Model.Stdin
 import StoneVerif.Model.DocTrim
 import Driver.FeRules
+import StoneVerif.Model.CliReport
 /-! Protocol handlers of the `fe.*` suites. -/
 open Lean
 namespace Driver.Fe
@@ -88,11 +89,66 @@ def handleDocTrim (j : Json) : Except String Json := do
 end FeLex
 /-! end of the `fe.lex` section ------------------------------------------------------------------ -/
 
+/-! ------------------------------------------------------------------------------------------------
+## `fe.report`, `fe.format` (C03): the command line's answer to a spec error
+
+`{"op":"fe.report","path": str | null,"line": int | null,"msg": str, "style": str, "template": str, "fields": [str]}`:
+the first line the `except InvalidSpec` handler of `stone.cli.main` prints for an error with these fields.  The
+format operation is the one the translator extracts from the tree under test; the harness sends it along (the same
+extractor, run on the same tree) so that the answer does not depend on which tree the driver was last built from;
+without `style` the compiled `Tables.cliSpecError*` are used.
+`{"op":"fe.format","style":"format" | "percent","template": str,"args":[null | int | str, ...]}`: the interpreter
+of the two format operations alone (compared with Python's own on random templates).
+reply `{"ok": text}` | `{"crash":"typeError" | "valueError" | "indexError"}` | `{"unmodelled": true}`
+------------------------------------------------------------------------------------------------ -/
+section FeReport
+open StoneVerif.CliReport
+
+def reportResult : Except Err (List Char) → Json
+  | .ok cs => ok [("ok", Json.str (String.ofList cs))]
+  | .error .unmodelled => ok [("unmodelled", Json.bool true)]
+  | .error (.crash .typeError) => ok [("crash", "typeError")]
+  | .error (.crash .valueError) => ok [("crash", "valueError")]
+  | .error (.crash .indexError) => ok [("crash", "indexError")]
+
+def pyValOfJson : Json → Except String PyVal
+  | .null => pure .none
+  | .str s => pure (.str s.toList)
+  | j => do pure (.int (← j.getInt?))
+
+def handleReport (j : Json) : Except String Json := do
+  let path ← match jopt j "path" with
+    | none => pure none
+    | some v => do pure (some (← v.getStr?).toList)
+  let line ← match jopt j "line" with
+    | none => pure none
+    | some v => do pure (some (← v.getInt?))
+  let msg ← jstr j "msg"
+  let e : SpecErr := { path, line, msg := msg.toList }
+  match jopt j "style" with
+  | none => pure (reportResult (cliAnswer e))
+  | some st => do
+    let style ← st.getStr?
+    let tpl ← jstr j "template"
+    let fields ← strList j "fields"
+    pure (reportResult (answer style tpl fields e))
+
+def handleFormat (j : Json) : Except String Json := do
+  let style ← jstr j "style"
+  let tpl ← jstr j "template"
+  let args ← (← jarr j "args").toList.mapM pyValOfJson
+  pure (reportResult (run style tpl.toList args))
+
+end FeReport
+/-! end of the `fe.report` section --------------------------------------------------------------- -/
+
 def handle (op : String) (j : Json) : Except String Json := do
   match op with
   | "fe.lex" => handleLex j
   | "fe.stdin" => handleStdin j
   | "fe.doctrim" => handleDocTrim j
+  | "fe.report" => handleReport j
+  | "fe.format" => handleFormat j
   | _ =>
     -- fe.params / fe.names (C01 / C03 component models): Driver/FeRules.lean
     if op.startsWith "fe.params" || op.startsWith "fe.names" then Driver.FeRules.handle op j
